@@ -58,7 +58,7 @@ func isRequestKeys(v ssa.Value) bool {
 func c09(c *Ctx) {
 	p, r := c.P, c.R
 	r.Technique = "must-pass-through (cut) checks of the per-key acceptance gates and of the count gate; correlation analysis of permit / connection id / listening goroutine / verdicts on every path of the OFFER handler; value-flow of queue element fields"
-	r.Explanation = "Decides: (R1) the verdict container is created with one slot per offered key in both encodings; (R2) inside the filter loops a key is appended to the accepted list, and marked accepted, only under in-range = true, storage.Get error != nil and (code-list encoding) not in the in-flight cache, and marking and appending happen together; (R3) in the OFFER handler the goroutine that waits on the connection is started only on the edge where a transfer slot was obtained, the connection id announced is the Send id of the very connection that goroutine accepts on and is 0 on every other path, and on the no-slot path the accepted verdicts of every accept encoding the filters can produce are overwritten; (R4) the validation queue receives an element only under len(keys) == len(contents), carrying the accepted-keys value and the decoded contents unmodified; (R5) on the offering side accepted indices are used only after the verdict count equalled the number offered and a non-empty accepted set, and contents are selected by accepted index in order; (R6) keys cached as in-flight by the receiving goroutine are removed by a deferred call on all its exits. Not decided: concurrency of overlapping offers, delivery, the behaviour of the uTP dependency."
+	r.Explanation = "Decides: (R1) the verdict container is created with one slot per offered key in both encodings and the two ACCEPT codecs enforce exactly the limits their tags declare (the schema check of C14.R1, so 0..64 keys encode and decode); (R2) inside the filter loops a key is appended to the accepted list, and marked accepted, only under in-range = true, storage.Get error != nil and (code-list encoding) not in the in-flight cache, and marking and appending happen together; (R3) in the OFFER handler the goroutine that waits on the connection is started only on the edge where a transfer slot was obtained, the connection id announced is the Send id of the very connection that goroutine accepts on and is 0 on every other path, and on the no-slot path the accepted verdicts of every accept encoding the filters can produce are overwritten; (R4) the validation queue receives an element only under len(keys) == len(contents), carrying the accepted-keys value and the decoded contents unmodified; (R5) on the offering side accepted indices are used only after the verdict count equalled the number offered and a non-empty accepted set, and contents are selected by accepted index in order; (R6) keys cached as in-flight by the receiving goroutine are removed by a deferred call on all its exits. Not decided: concurrency of overlapping offers, delivery, the behaviour of the uTP dependency."
 	r.Assumptions = []string{"go-bitfield Bitlist semantics", "uTP AcceptWithCid waits on exactly the given connection id"}
 	r.Floor("R1.verdict-length", 3)
 	r.Floor("R2.accept-gates", 6)
@@ -67,6 +67,31 @@ func c09(c *Ctx) {
 	r.Floor("R5.offering-side", 3)
 	r.Floor("R6.inflight-cleanup", 1)
 
+	// the verdicts reach the offerer through the ACCEPT codecs: their limits are the ones the
+	// statement gives (0..64 keys in both encodings). The schema check of C14.R1 is run for the two
+	// accept containers; an encoder that refuses a full-size offer leaves the offerer without any
+	// verdict while a slot is held and a connection id was generated
+	{
+		sub := &Ctx{P: c.P, R: core.NewReport("C14", c.Tier, 0), Tier: c.Tier, Verif: c.Verif}
+		c14(sub)
+		n := 0
+		for _, o := range sub.R.Obs {
+			if !strings.HasPrefix(o.Rule, "C14.R1.") && !strings.HasPrefix(o.Rule, "C14.R2.") {
+				continue
+			}
+			if !strings.HasPrefix(o.Construct, "portalwire.Accept ") && !strings.HasPrefix(o.Construct, "portalwire.AcceptV1 ") && !strings.Contains(o.Construct, "Accept.ContentKeys") && !strings.Contains(o.Construct, "AcceptV1.ContentKeys") {
+				continue
+			}
+			n++
+			switch o.Verdict {
+			case core.Pass:
+				r.Pass("R1.verdict-encoding", o.Construct+" ("+strings.TrimPrefix(o.Rule, "C14.")+")", o.Pos, o.Detail)
+			case core.Violation:
+				r.Fail("R1.verdict-encoding", o.Construct+" ("+strings.TrimPrefix(o.Rule, "C14.")+")", o.Pos, "the ACCEPT codec does not carry one verdict for each of 0..64 keys: "+o.Detail)
+			}
+		}
+		r.Check(n >= 4, "R1.verdict-encoding", "accept codecs inspected", "-", fmt.Sprintf("%d schema obligations of Accept / AcceptV1", n), fmt.Sprintf("only %d schema obligations of the accept containers found", n))
+	}
 	filters := acceptFilters(p)
 	acceptTypes := map[string]bool{}
 	for _, f := range filters {
